@@ -1,7 +1,7 @@
 """import every sidecar contract module (order matters: models first)"""
 from . import models, c_ode_iface, c_schemes, c_base  # noqa: F401
 import importlib
-for _m in ("c_den", "c_backends", "c_ode", "c_sympytools", "c_expressions", "c_cli", "c_atoms", "c_transformer", "c_templates", "c_myokit", "c_save", "c_skeleton", "c_treetoode", "c_components"):
+for _m in ("c_den", "c_backends", "c_ode", "c_sympytools", "c_expressions", "c_cli", "c_atoms", "c_transformer", "c_templates", "c_myokit", "c_save", "c_skeleton", "c_treetoode", "c_components", "c_reserved"):
     try:
         importlib.import_module("contracts." + _m)
     except ModuleNotFoundError as e:
